@@ -8,7 +8,7 @@
    rejects a frame.  [fx] says which of the two repairs the code carries. *)
 From Coq Require Import List NArith Bool.
 From Coq Require Import Strings.Byte.
-From Mv Require Import Model.Mux Model.MuxCodec Proof.MuxInv Proof.Mux Proof.MuxCodec.
+From Mv Require Import Model.Mux Model.MuxCodec Model.MuxMon Proof.MuxInv Proof.Mux Proof.MuxCodec.
 Import ListNotations.
 Local Open Scope N_scope.
 
@@ -93,6 +93,29 @@ Example c24_nontrivial :
           AClose SB 1; ACTakeW SB 1; ACTakeR SB 1; ACPost SB 1; AFlushClose SB 1; ADeliver SA])
         (init cfg_default cfg_default) = Running st.
 Proof. eexists. vm_compute. reflexivity. Qed.
+
+(* the trace monitor (Model/MuxMon.v) accepts the history of that model run,
+   and rejects the histories of the two refutation witnesses when told the
+   repairs are present *)
+Definition hist_frames (r : result) : list (side * frame) :=
+  match r with Running st => map (fun p => (fst p, frame_of (snd p))) (hist st) | _ => [] end.
+Definition w_default (s : side) : N := 65535.
+
+Example c24_monitor_on_model_runs :
+  mon_ok all_fixed w_default
+    (hist_frames (run all_fixed
+       (witness_zero_read ++
+        [ARead SB 1 4; ARConsume SB 1; ARPost SB 1; AFlushInc SB 1; ADeliver SA;
+         ACloseWrite SA 1; ACWPost SA 1; AFlushCW SA 1; ADeliver SB;
+         AClose SB 1; ACTakeW SB 1; ACTakeR SB 1; ACPost SB 1; AFlushClose SB 1; ADeliver SA])
+       (init cfg_default cfg_default))) = true
+  /\ mon_ok all_fixed w_default
+       (hist_frames (run unfixed (removelast witness_zero_read) (init cfg_default cfg_default))) = false
+  /\ mon_ok all_fixed w_default
+       (hist_frames (run unfixed (removelast (removelast witness_open_order)) (init cfg_default cfg_default))) = false
+  /\ mon_ok unfixed w_default
+       (hist_frames (run unfixed (removelast witness_zero_read) (init cfg_default cfg_default))) = true.
+Proof. vm_compute. repeat split; reflexivity. Qed.
 
 Print Assumptions c24_refuted_unfixed.
 Print Assumptions c24_refuted_zero_incr.
